@@ -2,6 +2,7 @@
   `maybeSplit`, `smallest` and `count` on well-formed nodes.
 -/
 import Gobptree.Proofs.Leaf
+import Gobptree.Proofs.Linked
 
 namespace Gobptree
 
@@ -74,14 +75,16 @@ theorem nextLo_zip_cons {C : Type} (hi : Option K) (k : K) (c : C) (rest : List 
 
 /-- what `maybeSplit` does to a well-formed node -/
 theorem maybeSplit_ok (h : SWO lt) {o d m : Nat} {lo hi : Option K} {n : Node K V d}
-    (ho : 2 ≤ o) (hev : o % 2 = 0) (fresh : Nat) (hw : WF lt o d m lo hi n) :
+    (ho : 2 ≤ o) (hev : o % 2 = 0) (fresh : Nat) (hw : WF lt o d m lo hi n)
+    (after : Option Nat) (hL : Linked d after n) :
     (Node.count n < o ∧ Node.maybeSplit o fresh n = .ok (n, none)) ∨
     (Node.count n = o ∧ ∃ (l r : Node K V d) (s : K),
       Node.maybeSplit o fresh n = .ok (l, some r) ∧ Node.smallest r = .ok s ∧
       WF lt o d (o / 2) lo (some s) l ∧ WF lt o d (o / 2) (some s) hi r ∧
       Node.count l = o / 2 ∧ Node.count r = o / 2 ∧
       Node.pairs n = Node.pairs l ++ Node.pairs r ∧
-      Node.smallest l = Node.smallest n ∧ ltO lt s hi) := by
+      Node.smallest l = Node.smallest n ∧ ltO lt s hi ∧
+      Linked d (some (Node.firstId r)) l ∧ Linked d after r ∧ Node.firstId l = Node.firstId n) := by
   have hcnt := WF_count_le hw
   have h2 : o / 2 + o / 2 = o := by omega
   have hshift : o >>> 1 = o / 2 := by rw [Nat.shiftRight_eq_div_pow]
@@ -110,7 +113,7 @@ theorem maybeSplit_ok (h : SWO lt) {o d m : Nat} {lo hi : Option K} {n : Node K 
         List.drop_eq_getElem_cons hhlt
       refine ⟨({ (n : Leaf K V) with keys := (n : Leaf K V).keys.take (o / 2), vals := (n : Leaf K V).vals.take (o / 2), next := some fresh } : Leaf K V),
         ({ id := fresh, keys := (n : Leaf K V).keys.drop (o / 2), vals := (n : Leaf K V).vals.drop (o / 2), next := (n : Leaf K V).next } : Leaf K V),
-        s, ?_, ?_, ?_, ?_, ?_, ?_, ?_, ?_, ?_⟩
+        s, ?_, ?_, ?_, ?_, ?_, ?_, ?_, ?_, ?_, rfl, hL, rfl⟩
       · simp only [Node.maybeSplit, hnf, if_false, hshift]
         have : ¬ ((n : Leaf K V).keys.length < o / 2 + o / 2 ∨ (n : Leaf K V).vals.length < o / 2 + o / 2) := by omega
         simp only [this, if_false]
@@ -174,7 +177,7 @@ theorem maybeSplit_ok (h : SWO lt) {o d m : Nat} {lo hi : Option K} {n : Node K 
       rw [hnl] at g
       refine ⟨({ (n : Inner K (Node K V d)) with runts := (n : Inner K (Node K V d)).runts.take (o / 2), kids := (n : Inner K (Node K V d)).kids.take (o / 2) } : Inner K (Node K V d)),
         ({ id := fresh, runts := (n : Inner K (Node K V d)).runts.drop (o / 2), kids := (n : Inner K (Node K V d)).kids.drop (o / 2) } : Inner K (Node K V d)),
-        s, ?_, ?_, ?_, ?_, ?_, ?_, ?_, ?_, ?_⟩
+        s, ?_, ?_, ?_, ?_, ?_, ?_, ?_, ?_, ?_, ?_, ?_, ?_⟩
       · simp only [Node.maybeSplit, hnf, if_false, hshift]
         have : ¬ ((n : Inner K (Node K V d)).runts.length < o / 2 + o / 2 ∨ (n : Inner K (Node K V d)).kids.length < o / 2 + o / 2) := by omega
         simp only [this, if_false]
@@ -212,5 +215,34 @@ theorem maybeSplit_ok (h : SWO lt) {o d m : Nat} {lo hi : Option K} {n : Node K 
       · have hkeys := Kids_keys_lt h hi _ g.2
         rw [hdropk, hdropc] at hkeys
         exact hkeys (s, (n : Inner K (Node K V d)).kids[o / 2]) (by rw [List.zip_cons_cons]; exact List.mem_cons_self ..)
+      · show LinkedKids (Linked d) (Node.firstId (d := d)) _ ((n : Inner K (Node K V d)).kids.take (o / 2))
+        have hL' : LinkedKids (Linked d) (Node.firstId (d := d)) after
+            ((n : Inner K (Node K V d)).kids.take (o / 2) ++ (n : Inner K (Node K V d)).kids.drop (o / 2)) := by
+          rw [List.take_append_drop]; exact hL
+        rw [LinkedKids_append] at hL'
+        have h2 := hL'.1
+        rw [hdropc] at h2
+        have hfi : Node.firstId (d := d + 1) (Inner.mk fresh ((n : Inner K (Node K V d)).runts.drop (o / 2))
+              ((n : Inner K (Node K V d)).kids.drop (o / 2)) : Inner K (Node K V d)) =
+            Node.firstId ((n : Inner K (Node K V d)).kids[o / 2]) := by
+          show (match (n : Inner K (Node K V d)).kids.drop (o / 2) with | [] => 0 | c :: _ => Node.firstId c) = _
+          rw [hdropc]
+        show LinkedKids (Linked d) (Node.firstId (d := d)) (some (Node.firstId (d := d + 1) (Inner.mk fresh ((n : Inner K (Node K V d)).runts.drop (o / 2))
+              ((n : Inner K (Node K V d)).kids.drop (o / 2)) : Inner K (Node K V d)))) _
+        rw [hfi]
+        exact h2
+      · show LinkedKids (Linked d) (Node.firstId (d := d)) after ((n : Inner K (Node K V d)).kids.drop (o / 2))
+        have hL' : LinkedKids (Linked d) (Node.firstId (d := d)) after
+            ((n : Inner K (Node K V d)).kids.take (o / 2) ++ (n : Inner K (Node K V d)).kids.drop (o / 2)) := by
+          rw [List.take_append_drop]; exact hL
+        rw [LinkedKids_append] at hL'
+        exact hL'.2
+      · show (match (n : Inner K (Node K V d)).kids.take (o / 2) with | [] => 0 | c :: _ => Node.firstId c) =
+             (match (n : Inner K (Node K V d)).kids with | [] => 0 | c :: _ => Node.firstId c)
+        cases hkk : (n : Inner K (Node K V d)).kids with
+        | nil => rw [hkk] at hv; simp at hv; omega
+        | cons k0 rest =>
+          obtain ⟨hh', hhe⟩ : ∃ hh', o / 2 = hh' + 1 := ⟨o / 2 - 1, by omega⟩
+          rw [hhe]; rfl
 
 end Gobptree
